@@ -19,7 +19,7 @@ func init() { core.Register(c09{}) }
 func (c09) ID() string    { return "C09" }
 func (c09) Level() string { return "fault_enumeration" }
 func (c09) Rule() string {
-	return "per seeded scenario (satisfiable graph with cycles, lazy components, config-bound fields, optional unsatisfiable component and config points, 1-2 logging user post-processors, runners, 1-2 loaders, a harness scanner and a harness factory post-processor): the fault-free baseline must start, leave every optional unsatisfiable field at its zero value and run every runner; then EVERY single fault site of the scenario is injected, one start each: each required component point (retargeted to an absent name / impossible qualifier), each required value/prefix (key removed), each Init, each AfterPropertiesSet, each callback kind {before-instantiation, after-instantiation, properties, early-reference, before-init, after-init} of each user post-processor x component, the factory post-processor, the scanner x component (and the scanner failing for two / for all components in one pass), each loader (error / invalid YAML), each runner; plus seeded pairs. Oracle per faulted start: reached fault (model: the component is certainly created; for early-reference callbacks: the callback was observed) => App.Run returns an error, no panic, no divergence (step budgets), and no runner event for faults before the runner phase (runner faults: exactly the runners sorted before it ran); unreached fault (component certainly not created) => the start succeeds. distinct_nontrivial = distinct (site kind, component palette type, depth of the component in the creation stack when the fault fired); faults inside components reached only through swallowed Init lookups; optional unconfigured configuration points of pointer / duration / map / struct types stay untouched; misfit family (component replaced by another type vs. concrete-typed points: error / untouched, never a panic); mix-in family; arrays family (array-typed points: error / untouched, never a panic); cyclicConfig family; required points spelled out (required, required=TRUE/1/yes) under faults; fault error kinds (ordinary, value-typed, Cause()-less application error, context.Canceled); (nil, err) answers of post-processor callbacks; namedMisfit family; suppliedFault family (an after-initialization fault on a component supplied before instantiation); oddKinds family (wiring tags on fields of kinds nothing fits)"
+	return "per seeded scenario (satisfiable graph with cycles, lazy components, config-bound fields, optional unsatisfiable component and config points, 1-2 logging user post-processors, runners, 1-2 loaders, a harness scanner and a harness factory post-processor): the fault-free baseline must start, leave every optional unsatisfiable field at its zero value and run every runner; then EVERY single fault site of the scenario is injected, one start each: each required component point (retargeted to an absent name / impossible qualifier), each required value/prefix (key removed), each Init, each AfterPropertiesSet, each callback kind {before-instantiation, after-instantiation, properties, early-reference, before-init, after-init} of each user post-processor x component, the factory post-processor, the scanner x component (and the scanner failing for two / for all components in one pass), each loader (error / invalid YAML), each runner; plus seeded pairs. Oracle per faulted start: reached fault (model: the component is certainly created; for early-reference callbacks: the callback was observed) => App.Run returns an error, no panic, no divergence (step budgets), and no runner event for faults before the runner phase (runner faults: exactly the runners sorted before it ran); unreached fault (component certainly not created) => the start succeeds. distinct_nontrivial = distinct (site kind, component palette type, depth of the component in the creation stack when the fault fired); faults inside components reached only through swallowed Init lookups; optional unconfigured configuration points of pointer / duration / map / struct types stay untouched; misfit family (component replaced by another type vs. concrete-typed points: error / untouched, never a panic); mix-in family; arrays family (array-typed points: error / untouched, never a panic); cyclicConfig family; required points spelled out (required, required=TRUE/1/yes) under faults; fault error kinds (ordinary, value-typed, Cause()-less application error, context.Canceled); (nil, err) answers of post-processor callbacks; namedMisfit family; suppliedFault family (an after-initialization fault on a component supplied before instantiation); oddKinds family (wiring tags on fields of kinds nothing fits); needyProcessor family (an eager component post-processor with a required point of its own)"
 }
 func (c09) Assumptions() []string {
 	return []string{
